@@ -15,7 +15,7 @@ package lnwire
 //           value byte: the reader desynchronises from the declared lengths
 //           and a non-canonical stream is accepted.
 //
-// (diagnostic ext_reencode_reproduces_input) Messages that carry typed
+// KF-C10-6  (oracle unknown_records_preserved) Messages that carry typed
 //           extension records (open_channel, accept_channel, funding_created,
 //           funding_signed, channel_ready, closing_signed, closing_complete,
 //           closing_sig, revoke_and_ack, channel_reestablish, channel_update,
